@@ -127,8 +127,26 @@ def coq_flags(extra_q: Sequence[tuple[Path, str]] = ()) -> list[str]:
     return fl
 
 
-def ensure_lib(ctx: Ctx | None = None, timeout: int = 1500) -> tuple[bool, str]:
-    """(Re)build the static library (Lib, Model, Proofs) with a full .vo make, under a lock."""
+_REQ = re.compile(r"From\s+PyxelV\s+Require\s+(?:Import|Export)\s+([^.]*(?:\.[A-Za-z_][^.\s]*)*)\s*\.", re.S)
+
+
+def lib_targets_of(texts: Iterable[str]) -> list[str]:
+    """The .vo targets (relative to coq/) that the given Coq sources import from PyxelV."""
+    t = set()
+    for text in texts:
+        for m in re.finditer(r"From\s+PyxelV\s+Require\s+(?:Import|Export)\s+(.*?)\.\s", strip_comments(text), re.S):
+            for mod in m.group(1).split():
+                rel = mod.replace(".", "/")
+                if (THEORIES / (rel + ".v")).exists():
+                    t.add(f"theories/{rel}.vo")
+    return sorted(t)
+
+
+def ensure_lib(ctx: Ctx | None = None, timeout: int = 1500, targets: Sequence[str] | None = None) -> tuple[bool, str]:
+    """(Re)build the static library (Lib, Model, Proofs) with a full .vo make, under a lock.
+
+    With `targets`, only those .vo files and what they depend on are (re)built, so that a check is
+    not affected by unrelated files of the development."""
     COQ.mkdir(exist_ok=True)
     lock = open(COQ / ".lib.lock", "w")
     fcntl.flock(lock, fcntl.LOCK_EX)
@@ -145,7 +163,7 @@ def ensure_lib(ctx: Ctx | None = None, timeout: int = 1500) -> tuple[bool, str]:
             if r.returncode != 0:
                 return False, r.stdout + r.stderr
         r = subprocess.run(
-            ["timeout", str(timeout), "make", "-j", str(min(NCPU, 12))],
+            ["timeout", str(timeout), "make", "-j", str(min(NCPU, 12))] + list(targets or []),
             cwd=COQ, capture_output=True, text=True,
         )
         if ctx is not None:
@@ -229,13 +247,16 @@ def parse_assumptions(stdout: str) -> list[tuple[str | None, list[str]]]:
     return res
 
 
-def proof_leg(ctx: Ctx, gen_files: dict[str, str], prop_file: str, timeout: int = 900) -> bool:
+def proof_leg(ctx: Ctx, gen_files: dict[str, str], prop_file: str, timeout: int = 900,
+              extra_sources: Sequence[str] = ()) -> bool:
     """Write + compile generated files, compile the property file, record obligations.
 
     Every `Theorem` in Properties/<ID>.v (and every Lemma/Theorem of the generated files) is one
     obligation.  Returns True iff all were discharged.
     """
-    ok_lib, out = ensure_lib(ctx)
+    prop_text = (THEORIES / prop_file).read_text()
+    targets = lib_targets_of([prop_text] + list(gen_files.values()) + list(extra_sources))
+    ok_lib, out = ensure_lib(ctx, targets=targets)
     if not ok_lib:
         ctx.broken.append(Broken("theorem", "static library (Lib/Model/Proofs)", tail(out, 40)))
         ctx.log("library build FAILED\n" + tail(out, 25))
@@ -246,7 +267,7 @@ def proof_leg(ctx: Ctx, gen_files: dict[str, str], prop_file: str, timeout: int 
         f.unlink()
     extra = [(gen_dir, "PyxelGen")]
     all_ok = True
-    src_paths = list(THEORIES.rglob("*.v"))
+    src_paths = [THEORIES / prop_file] + dep_closure(targets)
     for name, text in gen_files.items():
         p = gen_dir / name
         p.write_text(text)
@@ -304,6 +325,20 @@ def proof_leg(ctx: Ctx, gen_files: dict[str, str], prop_file: str, timeout: int 
         ctx.broken.append(Broken("theorem", f"{prop_file}:{bad_nm or '?'}", tail(se, 30)))
         ctx.log(f"proof obligation broken: {bad_nm}: {tail(se, 14)}")
     return all_ok
+
+
+def dep_closure(targets: Sequence[str]) -> list[Path]:
+    """Source files of the targets and of everything they import from PyxelV (transitively)."""
+    seen, todo = set(), list(targets)
+    while todo:
+        t = todo.pop()
+        if t in seen:
+            continue
+        seen.add(t)
+        src = COQ / (t[:-3] + ".v")
+        if src.exists():
+            todo += lib_targets_of([src.read_text()])
+    return sorted(COQ / (t[:-3] + ".v") for t in seen if (COQ / (t[:-3] + ".v")).exists())
 
 
 def locate_error(text: str, stderr: str, names) -> str | None:
